@@ -99,6 +99,8 @@ abbrev Val := Nat × Bool
 structure CState where
   kind : String := ""
   store : Store String (Option Nat) Val := []
+  rcBinary : Bool := false
+  rc : RC String := ⟨[], none⟩
 
 def kindOf (s : String) : Option Kind :=
   match s with
@@ -173,8 +175,32 @@ def cstep (s : CState) (w : List String) : CState × String :=
     else ({ s with store := s.store.map (fun e => (e.1, toRaw e.2)) }, "ok")
   | _, _ => (s, "bad-op")
 
+def decLens (s : String) : Option (List (String × Nat)) :=
+  if s == "_" then some [] else
+  (s.splitOn ",").mapM (fun e => match e.splitOn "=" with
+    | [k, v] => v.toNat?.map (fun n => (k, n))
+    | _ => none)
+
+def showRc (r : Except Err (Option Nat)) : String :=
+  match r with
+  | .ok none => "ok"
+  | .ok (some n) => s!"ok {n}"
+  | .error e => showErr e
+
+def rcDo (s : CState) (op : RCOp String) : CState × String :=
+  let r := rcStep s.rcBinary s.rc op
+  ({ s with rc := r.1 }, showRc r.2)
+
 def step' (s : CState) (line : String) : CState × String :=
   match words line with
+  | ["rcnew", k, cols] =>
+    match decLens cols with
+    | some cs => ({ s with rcBinary := k == "b", rc := ⟨cs, none⟩ }, "ok")
+    | none => (s, "bad-op")
+  | ["rcset", k, n] => match n.toNat? with | some n => rcDo s (.set k n) | none => (s, "bad-op")
+  | ["rcdel", k] => rcDo s (.del k)
+  | ["rcser"] => rcDo s .ser
+  | ["rccount"] => rcDo s .count
   | ["esc", v] =>
     match decStr v with
     | some v => (s, "ok " ++ encStr (escape v))
